@@ -187,8 +187,47 @@ def run_c20(tier, seed, out):
     out.cov["distinct_nontrivial"] = max(out.cov["distinct_nontrivial"], out.cov["traces_validated_against_impl"])
 
 
-RUNNERS = {"C13": run_c13, "C16": run_c16, "C20": run_c20, "C04": run_c04, "C05": run_c05, "C06": run_c06}
-SPECS = {"C13": "TraceLifecycle", "C16": "TraceRouter", "C20": "TraceDns", "C04": "TraceDemux", "C05": "TraceLink", "C06": "TraceArp"}
+SOCK_CFG = """SPECIFICATION Spec
+CONSTANTS
+  Writes <- %s
+  ReadSizes = {1, 2, 4}
+  QCap = 8
+  TaskPerWrite = FALSE
+  BudgetBug = FALSE
+INVARIANTS StreamInv RecvBound NoDrop Complete
+CHECK_DEADLOCK FALSE
+"""
+
+
+def run_c02(tier, seed, out):
+    log("[C02] model checking SockPipe.tla (write hand-off, re-chunking, accept backlog, recv(n) with stored remainder)")
+    for w in ("W3", "W2"):
+        model(out, "MC_SockPipe.tla", SOCK_CFG % w, "sockpipe-" + w, workers=8, timeout=600)
+    log("[C02] complete stack between socket applications, current_thread runtime with virtual time")
+    drive_validate_resumable(out, "C02", HV_CORE, "sock-drive", "TraceSock", 300 if tier == "quick" else 4000, seed, "socket scenarios (current_thread)")
+    log("[C02] the same scenarios on multi_thread runtimes (real time)")
+    for w in (2, 4, 8, 16):
+        n = 4 if tier == "quick" else 40
+        tp = os.path.join(workdir("fn-C02"), "sock-mt%d.ndjson" % w)
+        args = ["sock-drive", "--seed", str(seed + w), "--workers", str(w), "--out", tp]
+        hv_resumable(HV_CORE, args, n, timeout=1800)
+        chunked_validate(out, "C02", "TraceSock", tp, args + ["--runs", str(n)], 60000)
+        log("  multi_thread with %d workers: %d runs validated" % (w, n))
+    # known finding K1: the bounded socket queue drops stream bytes when the reader is late
+    tp = os.path.join(workdir("fn-C02"), "sock-backlog.ndjson")
+    args = ["sock-drive", "--seed", str(seed), "--backlog", "--out", tp]
+    hv_resumable(HV_CORE, args, 1)
+    chunked_validate(out, "C02", "TraceSock", tp, args + ["--runs", "1"], 60000)
+    out.cov["rule"] = ("stream (3/4) or datagram sockets, 1-5 clients against one listener, 1-40 writes of 1 B - 20 kB (back-to-back or spaced), recv sizes 1..100000, "
+                       "MTU 100-1500, jitter, loss 0/10/25 % with at most 3 consecutive losses per sender, duplicates; current_thread (paused clock) and multi_thread with "
+                       "2/4/8/16 workers; distinct counted as runs")
+    out.cov["distinct_nontrivial"] = max(out.cov["distinct_nontrivial"], out.cov["traces_validated_against_impl"])
+    out.assumptions += ["multi_thread runs are few, in real time, and not replayable exactly (their verdict rests on order-independent invariants)",
+                        "ISNs of the full stack come from rand::random() and are not fixed by the seed"]
+
+
+RUNNERS = {"C02": run_c02, "C13": run_c13, "C16": run_c16, "C20": run_c20, "C04": run_c04, "C05": run_c05, "C06": run_c06}
+SPECS = {"C02": "TraceSock", "C13": "TraceLifecycle", "C16": "TraceRouter", "C20": "TraceDns", "C04": "TraceDemux", "C05": "TraceLink", "C06": "TraceArp"}
 
 
 def run(prop, tier, seed, out, replay=None):
@@ -198,12 +237,12 @@ def run(prop, tier, seed, out, replay=None):
     if replay:
         r = json.load(open(replay))
         args = r["driver"]
-        if prop in ("C13", "C16", "C20"):
+        if prop in ("C02", "C13", "C16", "C20"):
             build_harness(("hv-sim",))
             a2 = [x for x in args]
             runs = int(a2[a2.index("--runs") + 1])
             del a2[a2.index("--runs"):a2.index("--runs") + 2]
-            hv_resumable(HV_CORE if prop == "C20" else HV_SIM, a2, runs)
+            hv_resumable(HV_CORE if prop in ("C20", "C02") else HV_SIM, a2, runs)
         else:
             hv(HV_CORE, args)
         tp = args[args.index("--out") + 1]
